@@ -131,7 +131,7 @@ theorem good_mutate {st : RSetState} {tr : Track} (hg : Good st tr) (m' : Member
   · intro _ j j' h h' c c' _ _ ho; exact (hnot j c ho).elim
   · intro _ j h c _ ho; exact (hnot j c ho).elim
 
-theorem runUncached_spec (sh : Shared) (q : Query) (L : List Int) (hsrc : sh.src = L) (hL : Sorted L)
+theorem runUncached_spec (sh : Shared) (q : Query) (L : List Int) (hsmall : fits q L) (hsrc : sh.src = L) (hL : Sorted L)
     (hlen : sh.len = none ∨ sh.len = some L.length) :
     (runUncached sh q).2 = some (spec q L) ∧ (runUncached sh q).1.src = L ∧
     ((runUncached sh q).1.len = none ∨ (runUncached sh q).1.len = some L.length) := by
@@ -143,19 +143,19 @@ theorem runUncached_spec (sh : Shared) (q : Query) (L : List Int) (hsrc : sh.src
     · rw [h]; simp [spec, hsrc, h]
   | _ =>
     simp only [runUncached]
-    refine ⟨by rw [hsrc, Cache.gen_eq_spec _ _ hL], by split <;> exact hsrc, ?_⟩
+    refine ⟨by rw [hsrc, Cache.gen_eq_spec _ _ hL hsmall], by split <;> exact hsrc, ?_⟩
     split
     · exact hlen
     · right; simp [hsrc]
 
-theorem good_query {st : RSetState} {tr : Track} (hg : Good st tr) (q : Query) :
+theorem good_query {st : RSetState} {tr : Track} (hg : Good st tr) (q : Query) (hsmall : fits q (specL tr.m)) :
     (applyOp st (.q q)).2 = some (spec q (specL tr.m)) ∧ Good (applyOp st (.q q)).1 tr := by
   have hsorted := (members_src tr.m hg.msorted).2
   cases hco : st.cacheOn with
   | true =>
     obtain ⟨hi, hp⟩ := hg.cinv hco
     have hs : Sorted st.cur.sh.src := by rw [hg.src]; exact hsorted
-    obtain ⟨r1, r2, r3, r4, r5, r6⟩ := runQuery_spec hi hp hs q
+    obtain ⟨r1, r2, r3, r4, r5, r6⟩ := runQuery_spec hi hp hs q (by rw [hg.src]; exact hsmall)
     simp only [applyOp, hco, ↓reduceIte]
     refine ⟨by rw [r1, hg.src], ⟨hg.m_eq, hg.msorted, hg.gens, hg.hlen, r4.trans hg.src, hg.older,
       fun _ => ⟨r2, r3⟩, fun h => by simp [hco] at h, ?_, fun _ => hg.hd hco, fun h => by simp [hco] at h⟩⟩
@@ -169,7 +169,7 @@ theorem good_query {st : RSetState} {tr : Track} (hg : Good st tr) (q : Query) :
     show (runQuery st.cur q).1.its[h.tid]? = some it
     rw [r5 h.tid hlt]; exact e2
   | false =>
-    obtain ⟨r1, r2, r3⟩ := runUncached_spec st.cur.sh q _ hg.src hsorted (hg.ulen hco)
+    obtain ⟨r1, r2, r3⟩ := runUncached_spec st.cur.sh q _ hsmall hg.src hsorted (hg.ulen hco)
     simp only [applyOp, hco, Bool.false_eq_true, ↓reduceIte]
     exact ⟨r1, ⟨hg.m_eq, hg.msorted, hg.gens, hg.hlen, r2, hg.older, fun h => by simp [hco] at h,
       fun _ => r3, fun h => by simp [hco] at h, fun h => by simp [hco] at h, fun _ => hg.hu hco⟩⟩
@@ -455,7 +455,7 @@ theorem good_create_uncached {st : RSetState} {tr : Track} (hg : Good st tr) (hc
 
 /-- one op that does not advance a stale iterator: the observation is the specified one -/
 theorem good_step {st : RSetState} {tr : Track} (hg : Good st tr) (op : Op) (hs : opSorted op)
-    (hf : opFresh tr op) :
+    (hf : opFresh tr op) (hfit : opFits tr op) :
     (applyOp st op).2 = (specStep tr op).2 ∧ Good (applyOp st op).1 (specStep tr op).1 := by
   have msnoc : ∀ l, l.Pairwise (· ≤ ·) → ∀ (a b : List (List Int)), (∀ s ∈ a ++ b, s.Pairwise (· ≤ ·)) →
       (∀ s ∈ (a ++ [l]) ++ b, s.Pairwise (· ≤ ·)) ∧ (∀ s ∈ a ++ (b ++ [l]), s.Pairwise (· ≤ ·)) := by
@@ -488,7 +488,7 @@ theorem good_step {st : RSetState} {tr : Track} (hg : Good st tr) (op : Op) (hs 
     refine ⟨rfl, ?_⟩
     rw [show (applyOp st (.addExDate d)).1 = invalidate st { st.m with exdates := st.m.exdates ++ [d] } from rfl, hg.m_eq]
     exact good_mutate hg _ hg.msorted
-  | q q => exact good_query hg q
+  | q q => exact good_query hg q hfit
   | open_ k =>
     cases hco : st.cacheOn with
     | true =>
@@ -547,14 +547,14 @@ theorem good_step {st : RSetState} {tr : Track} (hg : Good st tr) (op : Op) (hs 
 
 /-- **history_inv** for an arbitrary starting point of the invariant -/
 theorem history_good : ∀ (ops : List Op) (st : RSetState) (tr : Track), Good st tr →
-    (∀ op ∈ ops, opSorted op) → NoStale tr ops → runOps st ops = specOps tr ops := by
+    (∀ op ∈ ops, opSorted op) → NoStale tr ops → AllFit tr ops → runOps st ops = specOps tr ops := by
   intro ops
   induction ops with
-  | nil => intro st tr _ _ _; rfl
+  | nil => intro st tr _ _ _ _; rfl
   | cons op ops ih =>
-    intro st tr hg hs hn
-    obtain ⟨r1, r2⟩ := good_step hg op (hs op (by simp)) hn.1
+    intro st tr hg hs hn hfit
+    obtain ⟨r1, r2⟩ := good_step hg op (hs op (by simp)) hn.1 hfit.1
     show (applyOp st op).2 :: runOps (applyOp st op).1 ops = (specStep tr op).2 :: specOps (specStep tr op).1 ops
-    rw [r1, ih _ _ r2 (fun o ho => hs o (by simp [ho])) hn.2]
+    rw [r1, ih _ _ r2 (fun o ho => hs o (by simp [ho])) hn.2 hfit.2]
 
 end RSet
